@@ -94,6 +94,11 @@ fn main() {
             let seed: u64 = args.get(3).and_then(|s| s.parse().ok()).unwrap_or(1);
             dict::cli_roundtrip(thorough, seed);
         }
+        Some("c11cli") => {
+            let thorough = args.get(2).map(String::as_str) == Some("thorough");
+            let seed: u64 = args.get(3).and_then(|s| s.parse().ok()).unwrap_or(1);
+            train::cli_train(thorough, seed);
+        }
         Some("c17cli") => {
             let thorough = args.get(2).map(String::as_str) == Some("thorough");
             let seed: u64 = args.get(3).and_then(|s| s.parse().ok()).unwrap_or(1);
